@@ -15,15 +15,6 @@ for i, nm in enumerate(["concat", "quantify", "assert"]):
                                              ensures=f"SAME_TEXT(result, COND_GROUP(self, {i}))",
                                              returns="expr", result=f"COND_GROUP(self, {i})", frame=[])
 
-# group(): only the branch for operands that are not group-shaped is needed by the other combinators
-C[P + "group"] = dict(
-    params={"self": ["Alternation", "Assertion", "Class", "Empty", "Other", "Quantifier", "Token"], "is_case_insensitive": "bool"},
-    requires="TYPE(self) != 'Group'",
-    raises={},
-    ensures="SAME_TREE(TEXT(result), REF_GROUP_PLAIN(self, is_case_insensitive)) and IMPLIES(EMPTY(self), result is self)",
-    returns="pregex", ref="REF_GROUP_PLAIN(self, is_case_insensitive)", returns_self_if="EMPTY(self)", atomic=True,
-    frame=[])
-
 # construction of a Pregex from text (the constructor's contract as seen by callers)
 C["new:pregex.core.pre.Pregex"] = dict(
     params={"pattern": "str", "escape": "bool"},
